@@ -22,7 +22,7 @@ SV_BINOPS.update({"lt": "<", "gt": ">"})
 RESET_KINDS = ["async_low", "async_high", "sync_low", "sync_high"]
 # spellings of the reset test in `if (<cond>)`; %s = reset name.  The first three of each polarity
 # are the shapes convert.rs recognises.
-COND_LOW = ["!%s", "~%s", "(!%s)", "(~%s)", "%s == 1'b0", "!%s "]
+COND_LOW = ["!%s", "~%s", "(!%s)", "(~%s)", "%s == 1'b0", "! %s", "!(%s)"]
 COND_HIGH = ["%s", "(%s)", "%s == 1'b1", "%s != 1'b0"]
 
 
@@ -183,6 +183,15 @@ def rst_active_level(st):
 
 # ------------------------------------------------------------------------------------ construct tags
 
+def has_case(stmts):
+    for x in stmts:
+        if x[0] == "case":
+            return True
+        if x[0] == "if" and (has_case(x[2]) or has_case(x[3])):
+            return True
+    return False
+
+
 def tags(m, st):
     """construct tags of a program: which SV spellings (that differ from Veryl) it contains"""
     t = Counter()
@@ -238,6 +247,10 @@ def tags(m, st):
         elif k == "case":
             t["case"] += 1
             we(s[1])
+            if len(s[3]) != 1 or any(len(body) != 1 for _, body in s[2]):
+                t["case-block"] += 1
+            if any(has_case(body) for _, body in s[2]):
+                t["nested-case"] += 1
             for pats, body in s[2]:
                 for p in pats:
                     we(p)
@@ -246,12 +259,18 @@ def tags(m, st):
             for x in s[3]:
                 ws(x)
 
+    low = st["reset"].endswith("low")
+    rec = (COND_LOW[:4] if low else COND_HIGH[:2])
+    if has_reset(m) and st["reset"].startswith("async") and st["cond"] not in rec:
+        t["async-unrecognised"] += 1
     for it in m["items"]:
         if it[0] == "assign":
             t["assign"] += 1
             we(it[2])
         elif it[0] == "comb":
             t["always_comb"] += 1
+            if len(it[1]) != 1:
+                t["comb-block"] += 1
             for s in it[1]:
                 ws(s)
         else:
@@ -271,6 +290,8 @@ def tags(m, st):
             t["bit-decl"] += 1
         if d[1] > 64:
             t["wide"] += 1
+    if st["rst"] in ("reset", "clock") and has_reset(m):
+        t["keyword-ident"] += 1
     if st.get("params"):
         t["parameter"] += len(st["params"])
     if st.get("localparams"):
@@ -286,7 +307,9 @@ def collect_lits(m):
     def we(e):
         k = e[0]
         if k == "lit":
-            if e[4] == 0:
+            # unsigned literals only: veryl's simulator (the behavioural proxy of C22) reads a typed `signed` param /
+            # const as unsigned, which is not the translator's doing
+            if e[4] == 0 and not e[2]:
                 out.append((e[1], e[2], e[3], e[4]))
         elif k == "un":
             we(e[2])
@@ -330,15 +353,22 @@ def collect_lits(m):
     return out
 
 
-def gen_style(rng, m, params=True):
+def gen_style(rng, m, params=True, unrecognised_async=False):
     st = default_style()
     st["reset"] = rng.choice(RESET_KINDS)
     low = st["reset"].endswith("low")
-    st["rst"] = rng.choice(["rst_n", "rstn", "reset_n", "i_rst_n"] if low else ["rst", "reset", "i_rst", "arst"])
-    st["clk"] = rng.choice(["clk", "clk", "i_clk", "clock"])
+    st["rst"] = rng.choice(["rst_n", "rstn", "reset_n", "i_rst_n"] if low else ["rst", "rst_i", "i_rst", "arst"])
+    st["clk"] = rng.choice(["clk", "clk", "i_clk", "clk_i"])
     forms = COND_LOW if low else COND_HIGH
-    # mostly the recognised spellings, sometimes an unrecognised but equivalent one
-    st["cond"] = rng.choice(forms[:4] if low else forms[:2]) if rng.random() < 0.8 else rng.choice(forms)
+    rec = forms[:4] if low else forms[:2]
+    # asynchronous styles use the recognised spellings (an unrecognised one leaves `always_ff (clk, rst)` without
+    # if_reset, a recorded finding); synchronous styles use any equivalent spelling
+    if st["reset"].startswith("async") and not unrecognised_async:
+        st["cond"] = rng.choice(rec)
+    elif st["reset"].startswith("async"):
+        st["cond"] = rng.choice([f for f in forms if f not in rec])
+    else:
+        st["cond"] = rng.choice(rec) if rng.random() < 0.5 else rng.choice(forms)
     st["scalar_as_vector"] = rng.random() < 0.2
     if params:
         lits = collect_lits(m)
@@ -359,11 +389,11 @@ def gen_style(rng, m, params=True):
 CORE_PROFILE = dict(tern=False, cast=False, xz_lit=False, pow=False, ff_noreset=True)
 
 
-def gen_case(rng, cycles=12, profile=None, params=True):
+def gen_case(rng, cycles=12, profile=None, params=True, unrecognised_async=False):
     p = dict(CORE_PROFILE)
     if profile:
         p.update(profile)
     m = G.gen_program(rng, **p)
-    st = gen_style(rng, m, params=params)
+    st = gen_style(rng, m, params=params, unrecognised_async=unrecognised_async)
     stim = G.gen_stimulus(rng, m, cycles, p_reset=0.08)
     return m, st, stim
